@@ -67,6 +67,20 @@ CHECKS["C09"] = dict(
     note="Trusted: UFL complex_mode lowering (sesquilinear convention), numpy complex arithmetic vs C99 complex functions on the branch-cut-free generated domain.",
     design="5/C09",
 )
+CHECKS["C12"] = dict(
+    category="exploration",
+    technique="Hypothesis-generated (spec, process history, PYTHONHASHSEED, language) tuples executed in fresh child interpreters; byte-equality oracle against the empty-history hash-seed-0 child",
+    text="For generated forms/expressions the text returned by compile_ufl_objects is compared byte for byte between a fresh baseline process and processes that first create unrelated UFL objects, compile other generated specs (also with other options), call get_options differently, build the target before or after that history, and run under other hash seeds; C and numba back ends. Histories and seeds are sampled.",
+    note="Trusted: process isolation of the child interpreters. Hash seeds sampled from a fixed set of 9 values.",
+    design="5/C12",
+)
+CHECKS["C13"] = dict(
+    category="exploration",
+    technique="Hypothesis-generated pairs of JIT requests (same request under another history/seed, or a mutation) evaluated in fresh child interpreters without compiling; stability and collision oracles on module/object names vs normalised generated sources",
+    text="Module and object names are computed with FFCx's own naming functions in separate processes. The same request must give identical names under any generated history/hash seed/object counters; a mutated request (literal, operator, metadata, degree, points perturbed down to 1e-13 also inside >1000-point arrays, shape, scalar type, option, compiler flags, debug flag, form order) whose generated source or options differ must get a different module name; names must be valid, distinct and defined by the code. Pairs are sampled.",
+    note="Trusted: SHA-1 collision resistance; 'different kernels' decided on generated source text with hashes normalised.",
+    design="5/C13",
+)
 PENDING = {}
 
 def main():
